@@ -596,6 +596,10 @@ func workloads(thorough bool) []workload {
 		}
 	}
 	rec(nil)
+	// the enumeration above comes last: the thorough tier does not finish it within its
+	// deadline, and the families below (few, and each aimed at something) must not wait behind it
+	base := l
+	l = nil
 	// which publish a handler's context descends from; two concurrent publishers
 	for _, hs := range [][]int{{8}, {8, 0}, {9}, {9, 8}, {3}} {
 		for _, obs := range []int{0, 1} {
@@ -640,7 +644,7 @@ func workloads(thorough bool) []workload {
 			}
 		}
 	}
-	return l
+	return append(l, base...)
 }
 
 func scenario(w workload) vrt.Scenario {
